@@ -4,6 +4,7 @@
 # copies, tools/ns_all.sh). Any check that does not exit 0 on one of them is a false alarm. Writes seeded/_benign/RESULT.txt.
 cd /verif
 SLOTS="${1:-3}"
+eval "$(tools/ns_snapshot.sh)"
 ls -d seeded/_benign/*/ | sed 's#/$##' > /root/benign.list
 rm -f /root/benign.out.*
 i=0
